@@ -256,7 +256,12 @@ def _check_lin(E, X, lin, api, wm, ref, fails, stats, do_adjoint):
     try:
         T = X.dense_apply(jac.times, jac.domain, jac.target, cplx)
     except Exception as e:      # noqa
-        fails.append(Fail("exception:%s" % type(e).__name__, api, "jac.times raised %r" % (e,)))
+        # the same loud dtype rejections as for the adjoint can hit jac.times: a zero Jacobian (NullOperator,
+        # or the real-typed Jacobian of a real-valued energy) hands a float64 tangent to Imaginizer / jax.jvp
+        if _documented_rejection(e):
+            stats["jac_rejected"] = stats.get("jac_rejected", 0) + 1
+        else:
+            fails.append(Fail("exception:%s" % type(e).__name__, api, "jac.times raised %r" % (e,)))
         return
     stats["jac_columns"] = stats.get("jac_columns", 0) + T.shape[1]
     if not _close(T, ref["J"]):
@@ -289,7 +294,10 @@ def _check_lin(E, X, lin, api, wm, ref, fails, stats, do_adjoint):
             try:
                 Ml = X.dense_apply(lin.metric.times, lin.metric.domain, lin.metric.target, cplx)
             except Exception as e:      # noqa
-                fails.append(Fail("exception:%s" % type(e).__name__, api, "metric.times raised %r" % (e,)))
+                if _documented_rejection(e):
+                    stats["metric_rejected"] = stats.get("metric_rejected", 0) + 1
+                else:
+                    fails.append(Fail("exception:%s" % type(e).__name__, api, "metric.times raised %r" % (e,)))
                 return
             Ml = Ml[:(2 * n if cplx else n)]
             if not _close(Ml, ref["M"]):
@@ -302,6 +310,8 @@ def _documented_rejection(e):
     """Loud dtype rejections of a cotangent: Imaginizer raises ValueError (its adjoint only takes real
     input); a JaxOperator's VJP raises ValueError when the cotangent dtype differs from the output dtype."""
     import traceback
+    if isinstance(e, TypeError) and "primal and tangent arguments to jax.jvp do not match" in str(e):
+        return True      # JaxOperator: tangent dtype differs from the primal dtype (e.g. the float64 zero of a NullOperator)
     if not isinstance(e, ValueError):
         return False
     if "unexpected JAX type" in str(e) or ".imag called on a non-complex Field" in str(e):
@@ -448,6 +458,10 @@ def run(case):
     for o in set(ops):
         stats["n|%s|%s" % (dts, o)] = 1
     root = ops[0] if ops else "leaf"
+    if not stats.get("jac_columns"):
+        # every Jacobian application was a loud dtype rejection: only the value was compared, not counted
+        return ok(nontrivial=False, outcome="%s|value only: jac.times rejects the tangent dtype" % dts, stats=stats,
+                  detail=dict(tree=X.tree_str(t)))
     return ok(nontrivial=len(ops) > 0 or t in X.XLEAVES,
               outcome="%s|%s->%s|size%d|%s" % (dts, _category(root) if ops else "leaf", info["type"], info["size"],
                                                "metric" if info["metric"] else "-"),
